@@ -285,7 +285,10 @@ def check_paths(run, prog, env, oid, body, cases, kind, meta=None, max_paths=300
                 matched = True
                 covered.add(case.name)
                 gm = s.model()
+                n_pc = len(ex.pc)
                 good, why = case.good(ex, status, res, plog)
+                if len(ex.pc) > n_pc:
+                    s.add(*ex.pc[n_pc:])      # definitions introduced while building the expectation (ids of concrete lists / maps)
                 if good is True:
                     continue
                 if good is False:
